@@ -55,6 +55,10 @@ const (
 	ModeAccept   = 0
 	ModeRST      = 1 // accept, then reset the connection at once
 	ModeNoListen = 2 // listener closed: connect() fails with ECONNREFUSED; the port stays reserved
+	// ModeBlackhole: a listening socket with backlog 0 whose accept queue the harness has filled and nobody accepts
+	// from: the kernel drops every further SYN, so connect() gets no answer and ends by the caller's connect timeout.
+	// Established connections are not affected.
+	ModeBlackhole = 3
 )
 
 // Upstream is the scripted server. Proto is "http1" or "bolt" (bolt framing also serves the
@@ -68,6 +72,8 @@ type Upstream struct {
 	notify  chan struct{}
 	ln      net.Listener
 	guard   int // bound, never listening socket that keeps the port ours while the listener is closed
+	hole    int // ModeBlackhole: the listening socket nobody accepts from (-1 otherwise)
+	fillers []net.Conn
 	mode    int
 	conns   map[int]*UConn
 	order   []*UConn
@@ -105,7 +111,7 @@ func NewUpstream(proto string) (*Upstream, error) {
 		return nil, err
 	}
 	u := &Upstream{Proto: proto, Addr: ln.Addr().String(), ln: ln, conns: map[int]*UConn{}, reqs: map[string]*UReq{},
-		notify: make(chan struct{}), guard: -1}
+		notify: make(chan struct{}), guard: -1, hole: -1}
 	u.port = ln.Addr().(*net.TCPAddr).Port
 	// the guard: same port, SO_REUSEPORT, bound but never listening. While it exists nobody else can
 	// get the port, and while no listener exists a connect() is answered with RST.
@@ -168,13 +174,32 @@ func (u *Upstream) With(f func()) {
 func (u *Upstream) SetMode(m int) error {
 	u.mu.Lock()
 	defer u.mu.Unlock()
-	if m == ModeNoListen && u.guard < 0 {
+	if (m == ModeNoListen || m == ModeBlackhole) && u.guard < 0 {
 		m = ModeRST
+	}
+	if m != ModeBlackhole {
+		u.closeHole()
 	}
 	if m == ModeNoListen {
 		if u.ln != nil {
 			_ = u.ln.Close()
 			u.ln = nil
+		}
+		u.mode = m
+		return nil
+	}
+	if m == ModeBlackhole {
+		if u.hole >= 0 {
+			u.mode = m
+			return nil
+		}
+		if u.ln != nil {
+			_ = u.ln.Close()
+			u.ln = nil
+		}
+		if err := u.openHole(); err != nil {
+			u.closeHole()
+			return err
 		}
 		u.mode = m
 		return nil
@@ -199,6 +224,46 @@ func (u *Upstream) SetMode(m int) error {
 	}
 	u.mode = m
 	return nil
+}
+
+// openHole makes the port swallow SYNs: listen(backlog 0), then connect until a connect gets no answer.
+func (u *Upstream) openHole() error {
+	fd, err := syscall.Socket(syscall.AF_INET, syscall.SOCK_STREAM|syscall.SOCK_CLOEXEC, 0)
+	if err != nil {
+		return err
+	}
+	_ = syscall.SetsockoptInt(fd, syscall.SOL_SOCKET, syscall.SO_REUSEADDR, 1)
+	_ = syscall.SetsockoptInt(fd, syscall.SOL_SOCKET, 0xf, 1)
+	if err = syscall.Bind(fd, &syscall.SockaddrInet4{Port: u.port, Addr: [4]byte{127, 0, 0, 1}}); err == nil {
+		err = syscall.Listen(fd, 0)
+	}
+	if err != nil {
+		_ = syscall.Close(fd)
+		return fmt.Errorf("blackhole listen: %v", err)
+	}
+	u.hole = fd
+	for i := 0; i < 8; i++ {
+		c, derr := net.DialTimeout("tcp", u.Addr, 150*time.Millisecond)
+		if derr != nil {
+			if ne, ok := derr.(net.Error); ok && ne.Timeout() {
+				return nil // the queue is full: SYNs are dropped from here on
+			}
+			return fmt.Errorf("blackhole fill: %v", derr)
+		}
+		u.fillers = append(u.fillers, c)
+	}
+	return fmt.Errorf("blackhole: the accept queue took 8 connections with backlog 0")
+}
+
+func (u *Upstream) closeHole() {
+	if u.hole >= 0 {
+		_ = syscall.Close(u.hole)
+		u.hole = -1
+	}
+	for _, c := range u.fillers {
+		rst(c)
+	}
+	u.fillers = nil
 }
 
 func (u *Upstream) acceptLoop(ln net.Listener) {
@@ -543,6 +608,7 @@ func (u *Upstream) Close() {
 			_ = uc.c.Close()
 		}
 	}
+	u.closeHole()
 	if u.guard >= 0 {
 		_ = syscall.Close(u.guard)
 		u.guard = -1
